@@ -5,7 +5,7 @@ ok=0; bad=0
 for d in seeded/C*/; do
   tag=$(basename $d); id=${tag:0:3}
   git -C /repo apply /verif/$d/patch.diff || { echo "$tag: patch does not apply"; bad=$((bad+1)); continue; }
-  out=$(./bin/check $id --tier quick 2>&1); code=$?
+  out=$(VERIF_EVIDENCE_DIR=/tmp/seed/evidence ./bin/check $id --tier quick 2>&1); code=$?
   git -C /repo checkout -- .
   n=$(echo "$out" | grep -c "^VIOLATION property=$id")
   if [ $code -eq 1 ] && [ $n -ge 1 ]; then echo "$tag: caught ($n violation lines)"; ok=$((ok+1)); else echo "$tag: NOT caught (exit $code)"; echo "$out" | tail -3; bad=$((bad+1)); fi
